@@ -4,6 +4,7 @@ import (
 	"fmt"
 	"go/constant"
 	"go/types"
+	"sort"
 	"strings"
 )
 
@@ -20,7 +21,12 @@ type Env struct {
 	depth   int
 	err     *[]string
 	allocT  *Term // override for alloc heap (not used)
+	rec      *[]heapUse
+	noUnfold bool
+	inQuant  bool
 }
+
+type heapUse struct{ name, sort string }
 
 func (env *Env) fail(f string, a ...interface{}) Term {
 	msg := fmt.Sprintf(f, a...)
@@ -45,7 +51,20 @@ func (env *Env) child() *Env {
 	return &n
 }
 
+func (env *Env) record(name, sort string) {
+	if env.rec == nil {
+		return
+	}
+	for _, u := range *env.rec {
+		if u.name == name {
+			return
+		}
+	}
+	*env.rec = append(*env.rec, heapUse{name, sort})
+}
+
 func (env *Env) heapRead(name, valSort string, ref Term) Term {
+	env.record(name, arraySort(SInt, valSort))
 	h := env.fv.heapGet(env.heap, env.epoch, name, arraySort(SInt, valSort))
 	return tSelect(h, ref, valSort)
 }
@@ -202,6 +221,7 @@ func (env *Env) Eval(e Expr) Term {
 		return env.evalCall(x)
 	case *EQuant:
 		ne := env.child()
+		ne.inQuant = true
 		var binds []string
 		var guards []Term
 		for _, v := range x.Vars {
@@ -242,6 +262,7 @@ func (env *Env) pkgObject(pkgName, name string) (Term, bool) {
 		// package-level variable: global cell heap
 		srt := env.fv.sortOf(o.Type())
 		gname := "G_" + smtName(pkgName+"_"+name)
+		env.record(gname, srt)
 		h := env.fv.heapGet(env.heap, env.epoch, gname, srt)
 		h.T = o.Type()
 		return h, true
@@ -453,13 +474,10 @@ func (env *Env) evalCall(x *ECall) Term {
 		if env.old == nil {
 			return env.fail("fresh() needs an old state")
 		}
-		oa := fv.heapGet(env.old.heap, env.old.epoch, "pv_alloc", arraySort(SInt, SBool))
-		na := fv.heapGet(env.heap, env.epoch, "pv_alloc", arraySort(SInt, SBool))
-		return tAnd(tNot(tSelect(oa, a, SBool)), tSelect(na, a, SBool), tNot(tEq(a, mkInt(0))))
+		return tAnd(tNot(fv.isAlloc(env.old.heap, env.old.epoch, a)), fv.isAlloc(env.heap, env.epoch, a), tNot(tEq(a, mkInt(0))))
 	case "allocated":
 		a := env.Eval(x.Args[0])
-		na := fv.heapGet(env.heap, env.epoch, "pv_alloc", arraySort(SInt, SBool))
-		return tSelect(na, a, SBool)
+		return fv.isAlloc(env.heap, env.epoch, a)
 	case "has":
 		// has(m, k): key k present in map m
 		m, k := env.Eval(x.Args[0]), env.Eval(x.Args[1])
@@ -574,6 +592,9 @@ func (env *Env) evalCall(x *ECall) Term {
 	if err != nil {
 		return env.fail("%s: %v", x.Fn, err)
 	}
+	if ps.Heap {
+		return env.heapSpecCall(ps, args, rt)
+	}
 	if ps.Body != nil {
 		if env.depth > 6 {
 			return env.fail("spec macro recursion too deep in %s", x.Fn)
@@ -615,5 +636,79 @@ func (env *Env) evalCall(x *ECall) Term {
 	fv.usedSpecFns[ps.Name] = true
 	r := app(rs, name, args...)
 	r.T = rt
+	return r
+}
+
+
+// heapSpecUses computes (once) the heap arrays a heap-dependent spec function reads.
+func (fv *FV) heapSpecUses(ps *PredSpec) []heapUse {
+	if u, ok := fv.hsUses[ps.Name]; ok {
+		return u
+	}
+	if fv.hsBusy[ps.Name] {
+		return nil
+	}
+	fv.hsBusy[ps.Name] = true
+	var uses []heapUse
+	var errs []string
+	env := &Env{fv: fv, heap: map[string]Term{}, vars: map[string]Term{}, pkgName: ps.PkgName, err: &errs, rec: &uses, noUnfold: true}
+	for i, p := range ps.Params {
+		pt, err := fv.eng.resolveType(p.Type, ps.PkgName)
+		if err != nil {
+			continue
+		}
+		env.vars[p.Name] = Term{S: fmt.Sprintf("pv_dummy%d", i), Sort: fv.sortOf(pt), T: pt}
+	}
+	env.Eval(ps.Body)
+	sort.Slice(uses, func(i, j int) bool { return uses[i].name < uses[j].name })
+	fv.hsBusy[ps.Name] = false
+	fv.hsUses[ps.Name] = uses
+	return uses
+}
+
+func (env *Env) heapSpecCall(ps *PredSpec, args []Term, rt types.Type) Term {
+	fv := env.fv
+	if fv.hsBusy[ps.Name] {
+		// pass 1 of a recursive definition: only the shape matters
+		return Term{S: "pv_dummyrec", Sort: fv.sortOf(rt), T: rt}
+	}
+	uses := fv.heapSpecUses(ps)
+	name := "pv_hs_" + smtName(ps.PkgName+"_"+ps.Name)
+	var sorts []string
+	var actual []Term
+	for _, u := range uses {
+		sorts = append(sorts, u.sort)
+		env.record(u.name, u.sort)
+		actual = append(actual, fv.heapGet(env.heap, env.epoch, u.name, u.sort))
+	}
+	vars := map[string]Term{}
+	for i, p := range ps.Params {
+		pt, err := fv.eng.resolveType(p.Type, ps.PkgName)
+		if err != nil {
+			return env.fail("%s: %v", ps.Name, err)
+		}
+		a := env.coerce(args[i], fv.sortOf(pt))
+		a.T = pt
+		vars[p.Name] = a
+		sorts = append(sorts, a.Sort)
+		actual = append(actual, a)
+	}
+	rs := fv.sortOf(rt)
+	fv.decls.Add(1, name, fmt.Sprintf("(declare-fun %s (%s) %s)", name, strings.Join(sorts, " "), rs))
+	r := app(rs, name, actual...)
+	r.T = rt
+	if env.st != nil && !env.noUnfold && !env.inQuant {
+		key := r.S
+		if !fv.hsUnfolded[env.st][key] {
+			ne := *env
+			ne.vars = vars
+			ne.cells = nil
+			ne.noUnfold = true
+			ne.pkgName = ps.PkgName
+			body := ne.Eval(ps.Body)
+			body = env.coerce(body, rs)
+			env.st.assume(tEq(r, body))
+		}
+	}
 	return r
 }
